@@ -44,7 +44,10 @@ def dimension_forms(rng):
         forms.append(({}, None, optional))
     for dim in ({'size': '3'}, {'size': '2', 'size2': '4'}, {'isVariableSize': 'true'}, {'isVariableSize': 'true', 'size': '5'},
                 {'isVariableSize': 'true', 'variableSizeFieldType': 'u8'}, {'isVariableSize': 'true', 'variableSizeFieldName': 'cnt2', 'size': '2'},
-                {'variableSizeFieldName': '@cnt'}, {'size': 'THIS_IS_VARIABLE_SIZE_ARRAY'}, {'size': 'K'}):
+                {'variableSizeFieldName': '@cnt'}, {'size': 'THIS_IS_VARIABLE_SIZE_ARRAY'}, {'size': 'K'},
+                {'size': 'K+1', 'size2': '2'}, {'size': '2', 'size2': 'K-1'}, {'size': 'K_2', 'size2': '(K)'},
+                {'isVariableSize': 'false', 'size': '3'}, {'isVariableSize': '0', 'size': '3'}, {'isVariableSize': 'False', 'size': '4'},
+                {'isVariableSize': 'yes', 'size': '4'}):
         forms.append((dim, dim, False))
     forms.append(({'size': '2'}, {'size': '2'}, True))
     return name, typ, forms
@@ -160,10 +163,14 @@ def run_c17(tier):
                 names = ['m%d' % i for i in range(n)] + ['zz', 'new0']
                 a = chk.rng.choice(['type', 'insert', 'remove', 'dynamic', 'greedy', 'static', 'limited', 'rename'])
                 m = chk.rng.choice(names)
+                if acts and acts[-1][0] == 'greedy' and chk.rng.random() < 0.5:
+                    # a once-greedy member made an ordinary array again
+                    a, m = chk.rng.choice(['static', 'dynamic']), acts[-1][1]
                 if a == 'type':
                     acts.append([a, m, chk.rng.choice(['u8', 'i64'])])
                 elif a == 'insert':
-                    acts.append([a, str(chk.rng.choice([0, 1, 2, 999, -1])), 'new%d' % len(acts), 'u32'])
+                    acts.append([a, str(chk.rng.choice([0, 1, 2, 999, -1, 10 ** 30, -10 ** 30])),
+                                 chk.rng.choice(['new%d' % len(acts)] * 3 + names[:n]), 'u32'])     # sometimes a name that exists
                 elif a in ('remove', 'greedy'):
                     acts.append([a, m])
                 elif a in ('dynamic', 'limited'):
@@ -171,7 +178,7 @@ def run_c17(tier):
                 elif a == 'static':
                     acts.append([a, m, chk.rng.choice(['1', '3', '0', '-2', 'K'])])
                 else:
-                    acts.append([a, m, 'r%d' % len(acts)])
+                    acts.append([a, m, chk.rng.choice(['r%d' % len(acts)] * 3 + names[:n])])
             node = M.Struct('T', members)
             try:
                 P.patch([node], {'T': [P.Action(a[0], a[1:]) for a in acts]})
